@@ -140,3 +140,27 @@ def labelled_partition(draw, nodes, labels, required=()):
         if lab is not None:
             out[lab].append(v)
     return {k: sorted(v) for k, v in out.items()}
+
+
+ODD_NAMES = ["IL-6", "CD4+", "x'", "t cell", "β2"]
+
+
+def rename_nodes(g, mapping):
+    r = lambda n: mapping.get(n, n)  # noqa: E731
+    out = {"nodes": [r(n) for n in g["nodes"]], "di": [[r(u), r(v)] for u, v in g["di"]], "bi": [[r(u), r(v)] for u, v in g["bi"]]}
+    if g.get("motif"):
+        out["motif"] = g["motif"]
+    return out
+
+
+@st.composite
+def with_odd_names(draw, gs, chance=4):
+    """Occasionally give one or two nodes a name that is a valid variable name for y0 but not an identifier
+    (hyphen, plus, quote, blank, non-ASCII letter)."""
+    g = draw(gs)
+    if draw(st.integers(0, chance - 1)) != 0:
+        return g
+    k = draw(st.integers(1, min(2, len(g["nodes"]))))
+    victims = list(draw(st.permutations(g["nodes"])))[:k]
+    odd = list(draw(st.permutations(ODD_NAMES)))[:k]
+    return rename_nodes(g, dict(zip(victims, odd)))
